@@ -645,3 +645,46 @@ def r95(ctx, prog, M, T):
             else:
                 ctx.violation("R9.5", key, "%s (form `%s`)" % (why, form), file=f.file, line=line)
     ctx.count("truthiness_selections", n)
+
+    # -- R9.8 -------------------------------------------------------------------------------------------
+    ctx.rule("R9.8", "a bool shorthand is recognised by identity: a lookup keyed by True / False does not swallow the enum members whose value is 1 or 0")
+    from sa.pysrc import EnumMember as _EM
+
+    nshort = 0
+    for f in prog.all_functions():
+        if not f.module.name.startswith("pptx.") or f.module.name.startswith(("pptx.oxml", "pptx.opc")):
+            continue
+        for c in ast.walk(f.node):
+            # {True: A, False: B}.get(x, x): everything that is not a key passes through unchanged - and every value equal to a key
+            # (1 == True, 0 == False: members of an int-valued enumeration) does not
+            if not (isinstance(c, ast.Call) and isinstance(c.func, ast.Attribute) and c.func.attr == "get" and isinstance(c.func.value, ast.Dict)
+                    and len(c.args) == 2 and dotted(c.args[0]) is not None and dotted(c.args[0]) == dotted(c.args[1])):
+                continue
+            d = c.func.value
+            keys = [prog.const(k, f.module) if k is not None else None for k in d.keys]
+            if not any(k is True or k is False for k in keys):
+                continue
+            nshort += 1
+            key = "%s:bool-shorthand" % f.qualname
+            vals = [prog.const(v, f.module, None, f.cls) for v in d.values]
+            enums = {v.enum for v in vals if isinstance(v, _EM)}
+            if len(enums) != 1:
+                ctx.error(key, "the values of the shorthand table are not members of one enumeration")
+                continue
+            ecls = next((k for k in prog.all_classes() if k.name == next(iter(enums)) and prog.is_enum(k)), None)
+            if ecls is None:
+                ctx.error(key, "enumeration %s not found" % next(iter(enums)))
+                continue
+            table = {k: v for k, v in zip(keys, vals) if k is True or k is False}
+            swallowed = []
+            for m in prog.enum_members(ecls):
+                for k, v in table.items():
+                    if isinstance(m.value, int) and m.value == int(k) and m.name != v.name:
+                        swallowed.append((m.name, m.value, k, v.name))
+            if swallowed:
+                m = swallowed[0]
+                ctx.violation("R9.8", key, "the table lookup goes by equality and %s.%s has the value %d == %s: assigning that member stores %s instead "
+                              "(and reads back as the shorthand)" % (ecls.name, m[0], m[1], m[2], m[3]), file=f.file, line=c.lineno)
+            else:
+                ctx.ok("R9.8", key, sample={"table": {str(k): v.name for k, v in table.items()}, "enumeration": ecls.name})
+    ctx.ok("R9.8", "bool shorthand tables", sample={"pass_through_lookups": nshort})
